@@ -415,7 +415,7 @@ N_ATTR = len(ATTR_CHANNELS) * len(ATTR_SPECIALS)
 
 # ------------------------------------------------------------------------------------------------
 # family opt: optional attributes and column spans
-OPT_CASES = ["no-spans", "spans", "custom-height", "col-span-1", "col-span-2", "col-span-3", "col-overlap-cells", "row-without-cells", "sheet-hidden", "two-sheets-second-active", "merge-cells", "cell-t-n-empty-v", "cell-without-r", "row-without-r", "prefixed-main-namespace", "row-without-r-after-empty-rows"]
+OPT_CASES = ["no-spans", "spans", "custom-height", "col-span-1", "col-span-2", "col-span-3", "col-overlap-cells", "row-without-cells", "sheet-hidden", "two-sheets-second-active", "merge-cells", "cell-t-n-empty-v", "cell-without-r", "row-without-r", "prefixed-main-namespace", "row-without-r-after-empty-rows", "linked-picture"]
 
 
 def gen_opt(i):
@@ -477,7 +477,25 @@ def gen_opt(i):
         body = _re.sub(r"<(/?)([A-Za-z])", r"<\1x:\2", body)
         body = body.replace('xmlns="http://schemas.openxmlformats.org/spreadsheetml/2006/main"', 'xmlns:x="http://schemas.openxmlformats.org/spreadsheetml/2006/main"')
         sx = sx[:sx.index("<worksheet")] + body
-    p.sheets.append(("Sheet1", sx, None, None))
+    srels = None
+    if oc == "linked-picture":
+        # a picture that is LINKED, not embedded: <a:blip r:link=..> with an External image relationship (legal DrawingML)
+        sx = sx.replace("</worksheet>", '<drawing r:id="rId1"/></worksheet>')
+        srels = '<Relationship Id="rId1" Type="http://schemas.openxmlformats.org/officeDocument/2006/relationships/drawing" Target="../drawings/drawing1.xml"/>'
+        p.extra_parts["xl/drawings/drawing1.xml"] = (
+            '<?xml version="1.0" encoding="UTF-8" standalone="yes"?>'
+            '<xdr:wsDr xmlns:xdr="http://schemas.openxmlformats.org/drawingml/2006/spreadsheetDrawing" xmlns:a="http://schemas.openxmlformats.org/drawingml/2006/main" xmlns:r="http://schemas.openxmlformats.org/officeDocument/2006/relationships">'
+            '<xdr:twoCellAnchor editAs="oneCell"><xdr:from><xdr:col>3</xdr:col><xdr:colOff>0</xdr:colOff><xdr:row>1</xdr:row><xdr:rowOff>0</xdr:rowOff></xdr:from>'
+            '<xdr:to><xdr:col>5</xdr:col><xdr:colOff>0</xdr:colOff><xdr:row>6</xdr:row><xdr:rowOff>0</xdr:rowOff></xdr:to>'
+            '<xdr:pic><xdr:nvPicPr><xdr:cNvPr id="2" name="Picture 1"/><xdr:cNvPicPr><a:picLocks noChangeAspect="1"/></xdr:cNvPicPr></xdr:nvPicPr>'
+            '<xdr:blipFill><a:blip r:link="rId1"/><a:stretch><a:fillRect/></a:stretch></xdr:blipFill>'
+            '<xdr:spPr><a:xfrm><a:off x="0" y="0"/><a:ext cx="1219200" cy="952500"/></a:xfrm><a:prstGeom prst="rect"><a:avLst/></a:prstGeom></xdr:spPr>'
+            '</xdr:pic><xdr:clientData/></xdr:twoCellAnchor></xdr:wsDr>').encode("utf-8")
+        p.extra_parts["xl/drawings/_rels/drawing1.xml.rels"] = (
+            '<?xml version="1.0" encoding="UTF-8" standalone="yes"?><Relationships xmlns="http://schemas.openxmlformats.org/package/2006/relationships">'
+            '<Relationship Id="rId1" Type="http://schemas.openxmlformats.org/officeDocument/2006/relationships/image" Target="https://example.com/logo.png" TargetMode="External"/></Relationships>').encode("utf-8")
+        p.extra_overrides += '<Override PartName="/xl/drawings/drawing1.xml" ContentType="application/vnd.openxmlformats-officedocument.drawing+xml"/>'
+    p.sheets.append(("Sheet1", sx, srels, None))
     if oc == "sheet-hidden":
         p.sheets.append(("Hidden1", sheet_xml('<row r="1"><c r="A1"><v>5</v></c></row>'), None, "hidden"))
         intent["sheets"].append({"name": "Hidden1", "state": "hidden", "cells": {ckey(1, 1): {"kind": "n", "value": "5", "bits": bits(5), "formula": ""}}, "merges": [], "links": {}})
